@@ -168,7 +168,11 @@ func init() {
 			if !c.Quick() {
 				b = 3
 			}
-			runSched(c, "C02", []string{"M1-mint-mint", "M3-mint-poll-watcher", "M5-mint-poll-settlement", "S2-swap-melt", "S6-pendingmelt-poll-swap"}, b)
+			if c.Quick() {
+				runSched(c, "C02", []string{"M1-mint-mint", "M3-mint-poll-watcher", "M5-mint-poll-settlement", "S2-swap-melt", "S6-pendingmelt-poll-swap"}, b)
+			} else {
+				runSchedAll(c, "C02", []string{"M1-mint-mint", "M3-mint-poll-watcher", "M5-mint-poll-settlement", "S2-swap-melt", "S6-pendingmelt-poll-swap"}, b)
+			}
 		},
 		Worker: dispatchWorker(bfs.Worker(c02All)),
 		Replay: func(p string) int {
